@@ -6,7 +6,7 @@ use encoding_rs::*;
 use serde_json::{json, Value};
 use std::time::Instant;
 
-pub const RULE: &str = "case = byte string given to Encoding::for_label / for_label_no_replacement: the 228 labels x every single-byte substitution, insertion and deletion, every ASCII case mask (all masks for labels up to 12 bytes, seeded random masks beyond), padding with every combination of up to 2 (selected labels: 3) leading and trailing bytes from {09 0A 0B 0C 0D 20 00 A0 85}, label + whitespace + every byte (and mirrored), inner whitespace, over-long strings, empty / whitespace-only strings, every string of up to 4 (thorough 5) bytes over the 40-character label alphabet, every 2- and 3-token sequence over the vocabulary cut out of the labels, ~1900 charset names of other registries (IANA cs* aliases, CPython/ICU/MySQL spellings), the label between every pair of ~50 delimiters, runs of one byte of 1..=40 and 2^k+-10 bytes before/after/around the label, two simultaneous substitutions, seeded random strings over the label alphabet, every Encoding::name(). Oracle = the Standard's 'get an encoding' (strip leading/trailing TAB LF FF CR SPACE, ASCII-lowercase, exact match) on the frozen label table; for_label_no_replacement == for_label with replacement mapped to None; never a panic; arguments of 8 bytes and more are also passed as a sub-slice starting 1..=15 bytes after a 16-byte boundary (same answer required). Non-trivial = input that is not itself one of the 228 exact spellings; distinct = distinct byte string (by construction within a family, by content hash for random strings).";
+pub const RULE: &str = "case = byte string given to Encoding::for_label / for_label_no_replacement: the 228 labels x every single-byte substitution, insertion and deletion, every ASCII case mask (all masks for labels up to 12 bytes, seeded random masks beyond), padding with every combination of up to 2 (selected labels: 3) leading and trailing bytes from {09 0A 0B 0C 0D 20 00 A0 85}, label + whitespace + every byte (and mirrored), inner whitespace, over-long strings, empty / whitespace-only strings, every string of up to 4 (thorough 5) bytes over the 40-character label alphabet, every string of up to 3 bytes over all 256 byte values, every 4-byte string over the byte values 09..=7E (thorough: all 256) and every 5-byte string of printable ASCII 21..=7E (thorough: 20..=7E) against a hash-map form of the same oracle, every 2- and 3-token sequence over the vocabulary cut out of the labels, ~1900 charset names of other registries (IANA cs* aliases, CPython/ICU/MySQL spellings), the label between every pair of ~50 delimiters, runs of one byte of 1..=40 and 2^k+-10 bytes before/after/around the label, two simultaneous substitutions, seeded random strings over the label alphabet, every Encoding::name(). Oracle = the Standard's 'get an encoding' (strip leading/trailing TAB LF FF CR SPACE, ASCII-lowercase, exact match) on the frozen label table; for_label_no_replacement == for_label with replacement mapped to None; never a panic; arguments of 8 bytes and more are also passed as a sub-slice starting 1..=15 bytes after a 16-byte boundary (same answer required). Non-trivial = input that is not itself one of the 228 exact spellings; distinct = distinct byte string (by construction within a family, by content hash for random strings).";
 
 fn model(label: &[u8]) -> Option<&'static Encoding> {
     let is_ws = |b: u8| matches!(b, 0x09 | 0x0A | 0x0C | 0x0D | 0x20);
@@ -96,6 +96,137 @@ fn check(label: &[u8]) -> Option<String> {
         return Some(format!("for_label_no_replacement = {:?}, expected {:?}", got.1.map(|e| e.name()), want_nr.map(|e| e.name())));
     }
     None
+}
+
+/// the Standard's get-an-encoding for arguments of up to 8 bytes without allocation or table scan:
+/// the labels of up to 8 bytes, packed, in a hash map (built from the frozen label table, checked
+/// against `model` before use)
+struct FastModel {
+    map: std::collections::HashMap<(usize, u64), &'static Encoding>,
+}
+
+impl FastModel {
+    fn new() -> FastModel {
+        let g = golden();
+        let mut map = std::collections::HashMap::new();
+        for (l, e) in &g.labels {
+            let b = l.as_bytes();
+            if b.len() <= 8 {
+                let mut k = 0u64;
+                for c in b {
+                    k = (k << 8) | u64::from(*c);
+                }
+                map.insert((b.len(), k), encs::by_const(e).expect("golden label names a known encoding"));
+            }
+        }
+        FastModel { map }
+    }
+    #[inline]
+    fn get(&self, label: &[u8]) -> Option<&'static Encoding> {
+        debug_assert!(label.len() <= 8);
+        let is_ws = |b: u8| matches!(b, 0x09 | 0x0A | 0x0C | 0x0D | 0x20);
+        let mut a = 0;
+        let mut b = label.len();
+        while a < b && is_ws(label[a]) {
+            a += 1;
+        }
+        while b > a && is_ws(label[b - 1]) {
+            b -= 1;
+        }
+        let mut k = 0u64;
+        for c in &label[a..b] {
+            let c = if c.is_ascii_uppercase() { *c + 0x20 } else { *c };
+            k = (k << 8) | u64::from(c);
+        }
+        self.map.get(&(b - a, k)).copied()
+    }
+    /// the fast oracle must agree with the plain one (a disagreement is a harness defect, not a finding)
+    fn self_check(&self, labels: &[Vec<u8>]) {
+        let same = |a: Option<&'static Encoding>, b: Option<&'static Encoding>| match (a, b) {
+            (None, None) => true,
+            (Some(x), Some(y)) => std::ptr::eq(x, y),
+            _ => false,
+        };
+        for a in 0..=255u8 {
+            assert!(same(self.get(&[a]), model(&[a])));
+            for b in [0x09u8, 0x20, b'A', b'a', b'5', 0x0B, 0xFF] {
+                assert!(same(self.get(&[a, b]), model(&[a, b])));
+                assert!(same(self.get(&[b, a, b]), model(&[b, a, b])));
+            }
+        }
+        for l in labels {
+            if l.len() <= 6 {
+                let up: Vec<u8> = l.iter().map(|c| c.to_ascii_uppercase()).collect();
+                let mut v = vec![0x20];
+                v.extend_from_slice(&up);
+                v.push(0x0C);
+                for c in [&l[..], &up[..], &v[..], &v[1..], &l[1..], &l[..l.len() - 1]] {
+                    assert!(same(self.get(c), model(c)), "fast label oracle disagrees with the plain one on {:?}", c);
+                }
+            }
+        }
+    }
+}
+
+/// every string of `n` bytes over `alpha`, split by the first one or two bytes
+fn sweep_all(ctx: &Ctx, fm: &FastModel, alpha: &[u8], n: usize) -> Stats {
+    let k = alpha.len();
+    let head = n.min(2);
+    let parts = k.pow(head as u32);
+    let tail = n - head;
+    let total = (k as u64).pow(tail as u32);
+    let class = format!("every-{}-byte-string-over-{}-byte-values", n, k);
+    par_run(ctx, parts, |part, st| {
+        let mut v = [0u8; 8];
+        v[0] = alpha[part % k];
+        if head == 2 {
+            v[1] = alpha[part / k];
+        }
+        for x in v.iter_mut().take(n).skip(head) {
+            *x = alpha[0];
+        }
+        let cur = std::cell::Cell::new([0u8; 8]);
+        let mut bad: Option<[u8; 8]> = None;
+        let r = fw::catch(|| {
+            let mut idx = [0usize; 8];
+            for _ in 0..total {
+                cur.set(v);
+                let got = Encoding::for_label(&v[..n]);
+                let want = fm.get(&v[..n]);
+                let ok = match (got, want) {
+                    (None, None) => true,
+                    (Some(x), Some(y)) => std::ptr::eq(x, y),
+                    _ => false,
+                };
+                if !ok {
+                    bad = Some(v);
+                    return;
+                }
+                // odometer over positions head..n
+                let mut i = head;
+                while i < n {
+                    idx[i] += 1;
+                    if idx[i] < k {
+                        v[i] = alpha[idx[i]];
+                        break;
+                    }
+                    idx[i] = 0;
+                    v[i] = alpha[0];
+                    i += 1;
+                }
+            }
+        });
+        if r.is_err() {
+            bad = Some(cur.get());
+        }
+        st.evals += total;
+        st.nontrivial_enum += total;
+        st.class_n(&class, total);
+        if let Some(b) = bad {
+            // confirmed (and reported) by the full check with the plain oracle
+            one(&b[..n], st, false);
+        }
+    })
 }
 
 fn viol(label: &[u8], m: String) -> Violation {
@@ -350,6 +481,34 @@ pub fn run(ctx: &Ctx) -> i32 {
         });
         st.merge(r);
         st.exhaustive.push(format!("every string of 1..={} bytes over the 40-character label alphabet", maxn));
+    }
+    // every byte string of up to 3 bytes over all 256 values, every 4-byte string over 09..=7E
+    // (thorough: over all 256 values) and every 5-byte string of printable ASCII 21..=7E (thorough:
+    // 20..=7E): nothing about these strings is derived from the label table, so a shortcut keyed on
+    // length, a checksum or a few positions of the argument has nowhere to hide below 6 bytes
+    if !fw::should_stop() {
+        let fm = FastModel::new();
+        fm.self_check(&labels);
+        let all: Vec<u8> = (0..=255u8).collect();
+        let low: Vec<u8> = (0x09..=0x7Eu8).collect();
+        let pr: Vec<u8> = (0x21..=0x7Eu8).collect();
+        let sp: Vec<u8> = (0x20..=0x7Eu8).collect();
+        let mut plan: Vec<(&[u8], usize)> = vec![(&all, 1), (&all, 2), (&all, 3)];
+        if thorough {
+            plan.push((&all, 4));
+            plan.push((&sp, 5));
+        } else {
+            plan.push((&low, 4));
+            plan.push((&pr, 5));
+        }
+        for (alpha, n) in plan {
+            if fw::should_stop() {
+                break;
+            }
+            let r = sweep_all(ctx, &fm, alpha, n);
+            st.merge(r);
+            st.exhaustive.push(format!("every string of {} byte(s) over the {} byte values {:02X}..={:02X}", n, alpha.len(), alpha[0], alpha[alpha.len() - 1]));
+        }
     }
     // label vocabulary: every sequence of up to 3 tokens (letter runs with cs/x split off, digit runs,
     // punctuation) taken from the labels themselves - "csutf8", "iso8859-1", "windows1252-8" ...
